@@ -323,6 +323,41 @@ def t_chain_flags(E, merge, preserve_all, commons):
         E.prove(bool(kw.get('preserve_base')) == bool(commons or preserve_all), 'OPTION BASE survives only with COMMON variables or ALL')
 
 
+def t_chain_missing_file(E, merge, preserve_all):
+    """CHAIN to a program that cannot be opened: the error is raised before anything is cleared (the COMMON and
+    all other variables, the ON ERROR trap and the user functions are still there for the error handler)."""
+    from pcbasic.basic import implementation
+    from .C16 import Spy
+    log = []
+    impl = object.__new__(implementation.Implementation)
+    impl.program = Spy('program', log, {'protected': False, 'line_numbers': {10: 1}})
+    class _Itp(object):
+        _pyvc_trusted = True
+        def gather_commons(self):
+            return set([b'A!']), set()
+    class _Files(object):
+        _pyvc_trusted = True
+        def open(self, *a, **kw):
+            log.append(('files.open', a))
+            raise BASICError(error.FILE_NOT_FOUND)
+    impl.interpreter = _Itp()
+    impl.memory = Spy('memory', log)
+    impl.files = _Files()
+    impl.strings = Spy('strings', log)
+    calls = []
+    if E.mode == 'symbolic':
+        E.interp.contracts[implementation.Implementation._clear_all] = lambda I, args, kw: calls.append(dict(kw))
+    else:
+        impl._clear_all = lambda **kw: calls.append(dict(kw))
+    vals = values_env(with_strings=True)
+    name = vals.new_string()
+    E.call(name.from_str, b'NOSUCH')
+    r = E.call(impl.chain_, iter([merge, name, None, preserve_all, None]))
+    E.prove(r.is_error(BASICError, error.FILE_NOT_FOUND), 'File not found is reported')
+    E.prove(calls == [], 'nothing has been cleared')
+    E.prove([x for x in log if x[0].startswith('memory') or x[0].startswith('program.')] == [], 'memory and program untouched')
+
+
 TASKS = [
     Task('DataSegment.preserve_commons (CHAIN with COMMON / ALL)', t_chain_commons,
          cases=[{'preserve_all': a, 'new_size': n} for a in (False, True) for n in (100, 40, 300)]),
@@ -333,6 +368,8 @@ TASKS = [
     Task('UserFunctionManager.clear (no function survives a reset)', t_functions_cleared, cases=[{'called_before': c} for c in (False, True)]),
     Task('Implementation.chain_ (what _clear_all may keep)', t_chain_flags,
          cases=[{'merge': m, 'preserve_all': a, 'commons': c} for m in (False, True) for a in (False, True) for c in (False, True)]),
+    Task('Implementation.chain_ (program file cannot be opened)', t_chain_missing_file,
+         cases=[{'merge': m, 'preserve_all': a} for m in (False, True) for a in (False, True)]),
 ]
 
 ASSUMPTIONS = [
